@@ -118,6 +118,9 @@ const warnStartDelim = "HELM_ERR_START"
 const warnEndDelim = "HELM_ERR_END"
 const recursionMaxNums = 1000
 
+// recursionError marks the error raised when the include/tpl nesting limit is hit.
+type recursionError struct{ error }
+
 var warnRegex = regexp.MustCompile(warnStartDelim + `((?s).*)` + warnEndDelim)
 
 func warnWrap(warn string) string {
@@ -131,7 +134,7 @@ func includeFun(t *template.Template, includedNames map[string]int) func(string,
 		var buf strings.Builder
 		if v, ok := includedNames[name]; ok {
 			if v > recursionMaxNums {
-				return "", errors.Wrapf(fmt.Errorf("unable to execute template"), "rendering template has a nested reference name: %s", name)
+				return "", recursionError{errors.Wrapf(fmt.Errorf("unable to execute template"), "rendering template has a nested reference name: %s", name)}
 			}
 			includedNames[name]++
 		} else {
@@ -139,6 +142,14 @@ func includeFun(t *template.Template, includedNames map[string]int) func(string,
 		}
 		err := t.ExecuteTemplate(&buf, name, data)
 		includedNames[name]--
+		// text/template wraps the error with the template name at every level
+		// on the way back up. For the recursion error that is a thousand
+		// levels, each message containing all the inner ones: with long
+		// template names that costs gigabytes. Pass the original error up.
+		var rerr recursionError
+		if err != nil && errors.As(err, &rerr) {
+			return "", rerr
+		}
 		return buf.String(), err
 	}
 }
@@ -152,7 +163,7 @@ func tplFun(parent *template.Template, includedNames map[string]int, strict bool
 		// nesting like include does. The key cannot be a template name.
 		const tplDepthKey = "\x00tpl"
 		if includedNames[tplDepthKey] > recursionMaxNums {
-			return "", errors.Wrapf(fmt.Errorf("unable to execute template"), "rendering template has a nested tpl call: %q", tpl)
+			return "", recursionError{errors.Wrapf(fmt.Errorf("unable to execute template"), "rendering template has a nested tpl call: %.80q", tpl)}
 		}
 		includedNames[tplDepthKey]++
 		defer func() { includedNames[tplDepthKey]-- }()
@@ -191,6 +202,10 @@ func tplFun(parent *template.Template, includedNames map[string]int, strict bool
 
 		var buf strings.Builder
 		if err := t.Execute(&buf, vals); err != nil {
+			var rerr recursionError
+			if errors.As(err, &rerr) {
+				return "", rerr
+			}
 			return "", errors.Wrapf(err, "error during tpl function execution for %q", tpl)
 		}
 
